@@ -5,8 +5,8 @@ PROP = {
     "bin": "c06",
     "coq_targets": ["theories/Lift/C06Check"],
     "n": {"quick": int(_os.environ.get("C06_N", "640")), "thorough": 24000},   # C06_N: smaller runs for sensitivity experiments
-    "theorems": ["lang_bisim_sound", "bisim_from_sound", "lang_prefix_closed", "lang_eq_feasible", "lang_bisim_exec", "lang_bisim_exec_sem", "recover_names_ok"],
-    "rule": "8 hand-written regression programs, then random machine-code programs, one xoshiro256** stream per (seed,index): "
+    "theorems": ["lang_bisim_sound", "bisim_from_sound", "lang_prefix_closed", "lang_eq_feasible", "lang_bisim_exec", "lang_bisim_exec_sem", "recover_names_ok", "lang_eq_exec_sem", "sem_pexec_link", "recover_once", "recover_struct_once"],
+    "rule": "10 + 8 hand-written regression programs, then random machine-code programs, one xoshiro256** stream per (seed,index): "
             "toy fixed-width ISA (add / three-block conditional add / jmp / jcc with both successor orders / halt / indirect jump) of "
             "1-70 instructions (60% 17-40) at every alignment of the base modulo 64, control-transfer density 3/8/20/40%, "
             "targets uniform over the program (self, next, past-the-end included), 15% unmapped holes, entry inside the program in 40%, "
@@ -20,14 +20,15 @@ PROP = {
     "assumptions": ["a manual edge (h, t) leaves the basic block that starts at h (last instruction of the straight-line run from h)",
                     "a requested manual edge replaces the successor edge with the same head and tail; successors of one instruction "
                     "that share a target are one edge guarded by the disjunction of their guards"],
-    "partial": ["lang_eq_exec for Sem.sem_run itself is not proved: proved are lang_eq_feasible (may-semantics, from language equality) and "
-                "lang_bisim_exec (deterministic executor over positions, from checker acceptance + distinct guards); the link to "
-                "Sem.sem_run is checked per case by running Exec/Sem.v on both graphs",
-                "recover_struct / recover_lang for the Gallina model (Lift/Recover.v, tied per case, without the final merge) are not "
-                "proved except recover_names_ok: the property is decided per output by the verified validator"],
+    "partial": ["recover_struct: the clause 'entry block starts at the function address' is not proved for the model (names clause and "
+                "exactly-once/exactly-reachable clause are: recover_names_ok, recover_struct_once)",
+                "recover_lang (lang (recover tb fa []) = lang G_prog under tb_spec) is not proved: decided per output by the verified validator",
+                "composition with C15's merge_lang is by construction + exact tie (recover_full runs C15's s_merge and equals the Rust "
+                "output structurally on every case), not by a theorem: the two language definitions differ (addresses, unguarded edges)"],
     "level_text": "Verified validator: every function returned by the real translate_function_extended is checked in the Coq kernel against "
                   "the reference graph assembled (in Coq) from the program read one instruction at a time: language bisimulation "
                   "(lang_bisim, proved sound for all graphs), multiset of (address, operation) items, entry/edge/exit naming, and equal "
                   "runs of the reference IL semantics from random states.",
-    "level_note": "[U] soundness of the checker; [V] the property itself per generated program; [D] executor::Driver vs toy interpreter.",
+    "level_note": "[U] soundness of the checker, lang_eq_exec for Exec/Sem.v (lang_eq_exec_sem), exactly-once under tb_spec for the model; "
+                  "[V] the property itself per generated program; exact tie of the model incl. merge; [D] executor::Driver vs toy interpreter.",
 }
